@@ -10,6 +10,7 @@ CONSTANTS
   ClockMoves = FALSE
   EnforceChoices = {TRUE}
   Reads = FALSE
+  MaxReads = 0
   Shipped <- MC_Shipped
   ShipRule <- MC_ShipRule
   CandRoot <- MC_CandRoot
